@@ -180,12 +180,12 @@ class Evaluator:
             if isinstance(v, (str, bytes)):
                 r = getattr(v, e.func.attr)(*[self.ev(a) for a in e.args])
                 return tuple(r) if isinstance(r, list) else r
-        if isinstance(e, ast.Call) and isinstance(e.func, ast.Attribute) and e.func.attr in ("upper", "lower", "strip", "lstrip", "rstrip", "hex") and not e.args and not e.keywords:
+        if isinstance(e, ast.Call) and isinstance(e.func, ast.Attribute) and e.func.attr in ("upper", "lower", "strip", "lstrip", "rstrip", "hex", "encode", "decode") and not e.args and not e.keywords:
             try:
                 v = self.ev(e.func.value)
             except Unsupported:
                 v = None
-            if isinstance(v, (str, bytes)) and not (e.func.attr == "hex" and isinstance(v, str)):
+            if isinstance(v, (str, bytes)) and hasattr(v, e.func.attr):
                 return getattr(v, e.func.attr)()
         if isinstance(e, ast.Subscript):
             base = self.ev(e.value)
